@@ -17,7 +17,8 @@ S->C: every instance enumerated by Spec is built with the real API (Mask2D, Over
 C->S: one record per mapper (pix_sub_weights, mapping_matrix, unique_mappings, neighbors, simplices) is judged by
   Trace_Mapper.tla: the replayed instances, seeded larger rectangular instances (masks <= 4x4, meshes up to 6x6, sub 1..4) and
   seeded Delaunay instances (6..14 lattice vertices in general position, 20..60 sub-pixel positions inside and outside the
-  hull) for which the specification states what a valid answer is (any correct triangulation library is accepted)."""
+  hull; and hub meshes -- a centre ringed by 13..20 lattice points, so that neighbour lists of high degree are judged) for which
+  the specification states what a valid answer is (any correct triangulation library is accepted)."""
 import json
 import math
 import zlib
